@@ -1093,6 +1093,21 @@ def run(h):
                                      'subjects': g_subjects(h.sub_rng('seed', p, ver), p, mode, ver, flags)})
         for sj, p, flags in SEED_FUNCTIONS:
             h.case('functions', {'s': sj, 'p': p, 'flags': flags})
+    if h.shard == 0:
+        # multi-digit back-references: \NM is group NM if that many groups are open, else \N followed by M
+        letters = 'abcdefghijklmn'
+        for n in (9, 10, 11, 12):
+            groups = ''.join('(%s)' % c for c in letters[:n])
+            for k in sorted({n - 1, n, n + 1, 10, 11}):
+                if k < 10:
+                    continue
+                p = groups + '\\' + str(k)
+                subjects = [letters[:n] + letters[k - 1] if k <= n else letters[:n] + letters[k // 10 - 1] + str(k % 10),
+                            letters[:n] + letters[0] + str(k % 10), letters[:n] + letters[min(k, n) - 1],
+                            letters[:n], letters[:n] + 'zz']
+                for ver in ('1.0', '1.1'):
+                    h.case('translate', {'p': p, 'flags': '', 'ver': ver, 'mode': 'xpath', 'subjects': subjects})
+                h.case('functions', {'s': subjects[0], 'p': p, 'flags': ''})
     for _ in range(h.n(1300)):
         h.case('translate', g_translate_case(r))
     for _ in range(h.n(230)):
